@@ -55,6 +55,17 @@ func NewMessageBuffer(log logging.Logger, pending int, maxSize int, timeout time
 }
 
 func (m *MessageBuffer) Close() error {
+	if err := m.close(); err != nil {
+		return err
+	}
+	// Stop waits for the timer's dispatcher to return. The dispatcher may be inside the
+	// handler waiting for [m.l], so the timer must be stopped after the lock is released
+	// (a handler that runs after this point sees [m.closed] and returns).
+	m.pendingTimer.Stop()
+	return nil
+}
+
+func (m *MessageBuffer) close() error {
 	m.l.Lock()
 	defer m.l.Unlock()
 
@@ -68,7 +79,6 @@ func (m *MessageBuffer) Close() error {
 	// to the connection before it is closed.
 	m.clearPending()
 
-	m.pendingTimer.Stop()
 	m.closed = true
 	close(m.Queue)
 	return nil
